@@ -98,9 +98,12 @@ def build_program(seq, machine):
 
 
 ISR_CODE = bytes((0xF5, 0x3A, COUNTER & 0xFF, COUNTER >> 8, 0x3C, 0x32, COUNTER & 0xFF, COUNTER >> 8, 0xF1, 0xFB, 0xED, 0x4D))
+# a very short routine: EI ; INC (HL)-free 'NOP' ; RETI - interrupts are enabled again while the interrupt is still active
+# (first 32/36 T-states of the frame), so it is accepted a second time; save points then fall *inside* the active window
+ISR_SHORT = bytes((0xFB, 0x00, 0xED, 0x4D))
 
-DEFAULT = dict(fmt='szx', machine='48K', cmio=0, python=0, t0='near')
-ALTS = dict(fmt=['z80'], machine=['128K'], cmio=[1], python=[1], t0=['zero', 'late', 'big'])
+DEFAULT = dict(fmt='szx', machine='48K', cmio=0, python=0, t0='near', isr='long')
+ALTS = dict(fmt=['z80'], machine=['128K'], cmio=[1], python=[1], t0=['zero', 'late', 'big'], isr=['short'])
 
 
 def t0_value(name, machine, seq_len):
@@ -132,7 +135,7 @@ def write_init(cfg, seq, d):
             banks[bank][off:off + len(data)] = data
         ram = None
     poke(ORG, list(prog))
-    poke(ISR, list(ISR_CODE))
+    poke(ISR, list(ISR_SHORT if cfg.get('isr') == 'short' else ISR_CODE))
     poke(COUNTER, [0])
     poke(0x7DFF, [ISR & 0xFF, ISR >> 8])
     poke(0x9000, [0x81, 0x7F, 0x00, 0x3C, 0xFF, 0x10])
@@ -223,6 +226,11 @@ def configs(d):
     for k, cfg in core.deviations(DEFAULT, ALTS, d):
         if cfg not in seen:
             seen.append(cfg)
+    # save points inside the interrupt-active window matter to each simulator/loop separately
+    for py, cmio in ((1, 0), (0, 1), (1, 1)):
+        cfg = dict(DEFAULT, python=py, cmio=cmio, isr='short')
+        if cfg not in seen:
+            seen.append(cfg)
     return seen
 
 
@@ -253,7 +261,7 @@ def _shard(shard, nshards, tier, seed):
         stats.transitions += legs
         stats.traces += n_total - 1
         names = '>'.join(L[i][0] for i in seq)
-        ctag = '{fmt}/{machine}/cmio{cmio}/py{python}/t0-{t0}'.format(**cfg)
+        ctag = '{fmt}/{machine}/cmio{cmio}/py{python}/t0-{t0}/isr-{isr}'.format(**cfg)
         stats.state((ctag, names))
         stats.nontriv((ctag, names))
         stats.counters['cfg_' + ctag] += 1
